@@ -255,6 +255,8 @@ class Region(object):
             True if the given position is within one of the region's pixels.
         """
         sky = self.radec2sky(ra, dec)
+        # empty input gives an array of shape (0,), keep it as (0, 2)
+        sky = sky.reshape((-1, 2))
 
         if degin:
             sky = np.radians(sky)
